@@ -277,9 +277,11 @@ def run_case(inp):
                 ts = tuple(inp["tshape"]) if inp.get("tshape") else (n, n, n)      # non-cubic: per-axis depths
                 T = np.zeros(ts, dtype=np.float32)
                 c = (np.array(ts) - 1) / 2
-                for _ in range(5):
+                # nine points of similar weight: shifting the template onto itself by the vector between two of its points
+                # (or onto a rotated copy) then scores about 1/9, far from the acceptance score, whatever the draw
+                for _ in range(9):
                     p = np.clip(np.round(c + r.uniform(-0.25, 0.25, 3) * np.array(ts)), 1, np.array(ts) - 2).astype(int)
-                    T[tuple(p)] += r.uniform(0.5, 1.5)
+                    T[tuple(p)] += r.uniform(0.8, 1.2)
                 T = ndi.gaussian_filter(T, 0.8).astype(np.float32)
                 if inp.get("tshape"):
                     rots = [Rotation.identity()]        # a rotated box would leave the template frame
